@@ -241,8 +241,12 @@ def _cell_marker_format(text):
     return '<span style="color:red"><b>{0}</b></span>'.format(text)
 
 
-def cell_marker(text):
-    return nbformat.v4.new_markdown_cell(source=_cell_marker_format(text))
+def cell_marker(text, with_id=True):
+    cell = nbformat.v4.new_markdown_cell(source=_cell_marker_format(text))
+    if not with_id:
+        # Cell ids are not allowed before nbformat 4.5
+        cell.pop("id", None)
+    return cell
 
 
 def get_outputs_and_note(base, removes, patches):
@@ -387,12 +391,16 @@ def make_inline_cell_conflict(base_cells, local_diff, remote_diff):
     lcells = local_diff[0].valuelist + copy.deepcopy(base_cells[start : start + lkeep])
     rcells = remote_diff[0].valuelist + copy.deepcopy(base_cells[start : start + rkeep])
 
+    # Only give the marker cells an id if the notebook's cells have ids
+    # (nbformat >= 4.5), an id is an invalid property in older notebooks
+    with_id = any("id" in c for c in chain(base_cells, lcells, rcells))
+
     cells = []
-    cells.append(cell_marker("%s %s" % (m0, local_title)))
+    cells.append(cell_marker("%s %s" % (m0, local_title), with_id))
     cells.extend(lcells)
-    cells.append(cell_marker("%s" % (m1,)))
+    cells.append(cell_marker("%s" % (m1,), with_id))
     cells.extend(rcells)
-    cells.append(cell_marker("%s %s" % (m2, remote_title)))
+    cells.append(cell_marker("%s %s" % (m2, remote_title), with_id))
 
     # Return marked up cells
     return cells
